@@ -226,6 +226,7 @@ let show_mem (m : z list list) =
   "V " ^ String.concat ";" (List.mapi (fun a l ->
       Printf.sprintf "g%d=%s" a (String.concat "," (List.map (fun v -> string_of_int (int_of_z v)) l))) m)
 
+(*SPLIT: everything above is shared with extract/C21/driver.ml (props/C21.py prepends it) *)
 (* ------------------------------------------------------------------ a pseudo-random complete schedule of the launch model *)
 let rng = ref 12345
 let rand n = rng := (!rng * 1103515245 + 12345) land 0x3fffffff; (!rng lsr 8) mod n
